@@ -52,6 +52,13 @@ pub struct Case {
     pub towers: u8,
     pub locators: u8,
     pub ops: Vec<Op>,
+    /// slots a (re-)registration adds: with 1 or 2 a tower runs out of slots after a receipt or two
+    #[serde(default = "default_grant")]
+    pub grant: u32,
+}
+
+fn default_grant() -> u32 {
+    100
 }
 
 #[derive(Debug, Clone, Default, PartialEq, Eq)]
@@ -146,7 +153,7 @@ pub fn run_one(case: &Case, tag: &str) -> CaseReport {
                     did = false;
                 } else {
                     m.n_regs += 1;
-                    let (slots, start, expiry) = (m.slots + 100, 500 + m.n_regs, m.expiry.max(1000) + 1000);
+                    let (slots, start, expiry) = (m.slots + case.grant, 500 + m.n_regs, m.expiry.max(1000) + 1000);
                     let mut r = RegistrationReceipt::new(user_id, slots, start, expiry);
                     r.sign(&user_sk(20 + t));
                     let addr = format!("http://tower{t}.example:{}", 9814 + m.n_regs);
@@ -178,7 +185,7 @@ pub fn run_one(case: &Case, tag: &str) -> CaseReport {
                     let (slots, expiry) = match which % 3 {
                         0 => (m.slots + 10, m.expiry),    // same expiry
                         1 => (m.slots, m.expiry + 10),    // same slots
-                        _ => (m.slots - 1, m.expiry - 1), // both lower
+                        _ => (m.slots.saturating_sub(1), m.expiry - 1), // both lower
                     };
                     let mut r = RegistrationReceipt::new(user_id, slots, 1, expiry);
                     r.sign(&user_sk(20 + t));
@@ -191,7 +198,7 @@ pub fn run_one(case: &Case, tag: &str) -> CaseReport {
                 _ => did = false,
             },
             Op::Accepted { t, l } => match model.get_mut(&t) {
-                Some(m) if m.proof.is_none() && !m.receipts.contains_key(&l) && !m.pending.contains(&l) && !m.invalid.contains(&l) && m.status == Some("reachable") => {
+                Some(m) if m.slots > 0 && m.proof.is_none() && !m.receipts.contains_key(&l) && !m.pending.contains(&l) && !m.invalid.contains(&l) && m.status == Some("reachable") => {
                     let a = appointment(l);
                     let user_sig = teos_common::cryptography::sign(&a.to_vec(), &client.user_sk);
                     let mut r = AppointmentReceipt::new(user_sig.clone(), 700 + l as u32);
@@ -224,7 +231,7 @@ pub fn run_one(case: &Case, tag: &str) -> CaseReport {
                 _ => did = false,
             },
             Op::PendingToAccepted { t, l } => match model.get_mut(&t) {
-                Some(m) if m.proof.is_none() && m.pending.contains(&l) => {
+                Some(m) if m.slots > 0 && m.proof.is_none() && m.pending.contains(&l) => {
                     let a = appointment(l);
                     let user_sig = teos_common::cryptography::sign(&a.to_vec(), &client.user_sk);
                     let mut r = AppointmentReceipt::new(user_sig.clone(), 800 + l as u32);
@@ -503,8 +510,8 @@ impl Campaign for C18 {
         "C18"
     }
     fn strategy(&self) -> BoxedStrategy<Case> {
-        (2u8..=3, 2u8..=3)
-            .prop_flat_map(|(towers, locators)| {
+        (2u8..=3, 2u8..=3, prop_oneof![Just(1u32), Just(2u32), Just(100u32)])
+            .prop_flat_map(|(towers, locators, grant)| {
                 let op = prop_oneof![
                     3 => (0..towers).prop_map(|t| Op::Register { t }),
                     1 => (0..towers, 0u8..3).prop_map(|(t, which)| Op::StaleRenewal { t, which }),
@@ -520,7 +527,7 @@ impl Campaign for C18 {
                 proptest::collection::vec(op, 1..25).prop_map(move |mut ops| {
                     ops.insert(0, Op::Register { t: 0 });
                     ops.insert(1, Op::Register { t: 1 });
-                    Case { towers, locators, ops }
+                    Case { towers, locators, ops, grant }
                 })
             })
             .boxed()
@@ -578,7 +585,7 @@ pub fn run(ctx: &Ctx) -> i32 {
             ops.push(Op::Abandon { t });
             ops.push(Op::LateReply { t, l, accepted });
         }
-        let case = Case { towers: 2, locators: 2, ops };
+        let case = Case { towers: 2, locators: 2, ops, grant: 1 };
         let rep = run_one(&case, &format!("c18x-{:?}", std::thread::current().id()).replace(['(', ')'], ""));
         (serde_json::to_value(&case).unwrap(), rep)
     });
